@@ -4,7 +4,11 @@ DEAD is final without a higher incarnation, phi never decreases between heartbea
 Monitor shape: public-state sampling after every delivered event
 (`sim.control.on_event`): `get_member_state(x)` of every node for every peer,
 plus the wire content of the message just delivered (source, piggy-backed
-updates).  Real `MembershipProtocol` nodes on `hsverif.chaosnet.ChaosLink`s.
+updates).  The other public views of the same state (`alive_members`,
+`suspected_members`, `dead_members`, `stats` counts) are polled from the first
+event on - for the node that handled the event every time, for every node on each
+8th event and on every sample tick - compared with `get_member_state()`, and an
+ALIVE report through `alive_members` counts for the detection bound.  Real `MembershipProtocol` nodes on `hsverif.chaosnet.ChaosLink`s.
 
 Families
     healthy   bounded delays (<= 10 % of the probe interval), nobody stopped: any DEAD refutes
@@ -78,6 +82,7 @@ ASSUMPTIONS = [
     "'bounded number of probe rounds' is restated as B = (3N+10) probe intervals after the stop, fixed before measuring; any ALIVE report about the stopped member sampled later than stop + B is a violation",
     "documented parameter ranges taken as: probe_interval 0.1-10 s, suspicion_timeout 0.25-12 probe intervals, indirect_probe_count 0-5, phi_threshold 1-12 (defaults 1.0 / 5.0 / 3 / 8.0; tests use 0.5 / 3.0 / 4.0)",
     "SUSPECT counts as 'no longer reported ALIVE' (the statement asks only that ALIVE reports stop)",
+    "'reports' means every public view: get_member_state(), alive_members / suspected_members / dead_members and the stats counts; a member must be in exactly the list its get_member_state() names at every sample (one state per observer and member), otherwise one of the views reports a state the other has left",
     "tardy family: 'well below the probe interval' is stretched to one-way delays <= 30 % (round trip <= 60 % of the interval, below 50 % + the smallest suspicion timeout of 25 %): every ack still arrives before the suspicion timer it has to cancel; HEAD declared nobody DEAD in 1800 such runs",
     "join family: late members are introduced symmetrically (both sides call add_member at the same instant); a node that pings a peer which does not know it yet cannot be acked and is outside the healthy-network claim",
     "the incarnation of a DEAD report is bounded below by the incarnations of the updates the observer visibly applied; a DEAD -> ALIVE transition is accepted when any incarnation for that member delivered to the observer since the DEAD report is higher than that lower bound",
@@ -85,7 +90,7 @@ ASSUMPTIONS = [
     "MembershipProtocol offers no public per-member suspicion accessor: phiwire reads node._members[name].detector (read-only; MemberInfo and PhiAccrualDetector.phi/last_heartbeat are public) unless the tree offers get_phi / suspicion_level / phi_of",
     "global `random` state is owned by the case (seeded with case['pyseed']); the library shuffles probe orders with it",
 ]
-MUST_OBSERVE = ["state_samples", "late_samples_after_bound", "phi_pairs_checked", "dead_reports_tracked", "idle_probe_ticks", "late_acks_seen", "wired_phi_pairs_spanning_other_members_heartbeats"]
+MUST_OBSERVE = ["state_samples", "list_and_stats_views_polled", "late_samples_after_bound", "phi_pairs_checked", "dead_reports_tracked", "idle_probe_ticks", "late_acks_seen", "wired_phi_pairs_spanning_other_members_heartbeats"]
 
 MSG_TYPES = ("MembershipPing", "MembershipAck", "MembershipIndirectAck")
 
@@ -500,6 +505,10 @@ class _Monitor:
         self.bound_frac = case.get("bound_frac", BOUND_FRAC)
         self.prev_probes = [nd.stats.probes_sent for nd in nodes]
         self.check_phi = bool(case.get("check_phi"))
+        # every public view of a member's state is polled from the first event on (so that any cache is warm)
+        self.listed_alive_now = [False] * self.n  # stopped member currently in observer's alive_members
+        self.alive_by_list_only_ns = [None] * self.n  # last sample at which ONLY the list view reported it ALIVE
+        self.view_samples = 0
         self.phi_prev: dict = {}  # (yi, xi) -> (phi, t_ns, heartbeat marker, wire heartbeats seen)
         self.wire_hb = [[0] * m for _ in range(self.n)]  # pings / acks from member delivered to observer
         self.foreign_since = [[0] * m for _ in range(self.n)]  # heartbeats from OTHER members since the last sample
@@ -600,6 +609,8 @@ class _Monitor:
                     self.idle_ticks[ti] += 1  # a probe round with nobody to probe
                 self.prev_probes[ti] = sent
         late = self.bound_ns is not None and t > self.bound_ns
+        handler_idx = self.idx_of_target.get(id(ev.target))
+        poll_all = (self.events & 7) == 0 or ev.event_type == "SampleTick"
         for yi, y in enumerate(self.nodes):
             row = self.cur[yi]
             for xi, xname in enumerate(self.member_names):
@@ -610,9 +621,18 @@ class _Monitor:
                     if s is not None and row[xi] is not None:
                         self._transition(yi, xi, row[xi], s, t, ev, wire)
                     row[xi] = s  # None -> ALIVE is an introduction (add_member), not a report change
+            # lists + stats: the node that just handled the event every time, every node on each 8th event / sample tick
+            if yi == handler_idx or poll_all:
+                listed = self._check_views(yi, y, row, t, ev)
+                if self.stopped is not None:
+                    self.listed_alive_now[yi] = listed.get(self.member_names[self.stopped]) is MS.ALIVE
             if self.stopped is not None and yi != self.stopped:
+                in_alive_list = self.listed_alive_now[yi]
                 if row[self.stopped] is MS.ALIVE:
                     self.last_alive_ns[yi] = t
+                elif in_alive_list and row[self.stopped] is not None:
+                    self.last_alive_ns[yi] = t  # alive_members is as much a report as get_member_state()
+                    self.alive_by_list_only_ns[yi] = t
                 elif self.first_not_alive_ns[yi] is None:
                     self.first_not_alive_ns[yi] = t
         self.samples += self.n * (len(self.member_names) - 1)
@@ -629,9 +649,56 @@ class _Monitor:
             if t > self.settle_ns and self.control is not None:
                 A = MS.ALIVE
                 xs = self.stopped
-                if all(self.cur[yi][xs] is not A for yi in range(self.n) if yi not in self.excluded):
+                if all(self.cur[yi][xs] is not A and not self.listed_alive_now[yi] for yi in range(self.n) if yi not in self.excluded):
                     self.control.pause()  # every live view has left ALIVE and stayed so for 3 intervals past B
                     self.control = None
+
+    def _check_views(self, yi, y, row, t, ev) -> dict:
+        """Polls alive_members / suspected_members / dead_members / stats of one node and compares them with
+        get_member_state(): a member must be in exactly the list its state names; counts must match the lists.
+        Returns {member name: state named by the lists} (first list wins if a name is listed twice)."""
+        MS = self.MS
+        lists = ((MS.ALIVE, y.alive_members), (MS.SUSPECT, y.suspected_members), (MS.DEAD, y.dead_members))
+        st = y.stats
+        self.view_samples += 1
+        listed: dict = {}
+        problems = []
+        for state, names in lists:
+            for nm in names:
+                if nm in listed:
+                    problems.append((f"member-listed-twice-({listed[nm].name}+{state.name})", nm))
+                else:
+                    listed[nm] = state
+        for xi, xname in enumerate(self.member_names):
+            if xi == yi:
+                continue
+            s = row[xi]
+            ls = listed.get(xname)
+            if s is not ls:
+                problems.append(
+                    (f"get_member_state-{getattr(s, 'name', 'unknown')}/listed-as-{getattr(ls, 'name', 'nothing')}", xname)
+                )
+        counts = (st.alive_count, st.suspect_count, st.dead_count)
+        lens = tuple(len(names) for _, names in lists)
+        if counts != lens:
+            problems.append(("stats-counts-differ-from-list-lengths", f"{counts} vs {lens}"))
+        for shape, what in problems:
+            key = ("views", shape)
+            if key in self.flagged:
+                continue
+            self.flagged.add(key)
+            self.res.add(
+                "public-views-of-a-member-disagree",
+                "MembershipProtocol",
+                shape,
+                detail=(
+                    f"{self.names[yi]} at t={t / 1e9:.6f}s after {ev.event_type}: {what}: get_member_state says "
+                    f"{ {self.member_names[i]: getattr(row[i], 'name', None) for i in range(len(row)) if i != yi} }, alive_members={lists[0][1]}, "
+                    f"suspected_members={lists[1][1]}, dead_members={lists[2][1]}, stats alive/suspect/dead={counts}"
+                ),
+                witness={"observer": self.names[yi], "t_s": t / 1e9, "about": what, "event_type": ev.event_type},
+            )
+        return listed
 
     def _sample_phi(self, yi, t, ev, wire):
         """phi(t2) < phi(t1), t1 <= t2, with no heartbeat from that member recorded in between, refutes."""
@@ -904,6 +971,7 @@ def _run_cluster(case: dict, *, check_false_death: bool, check_detection: bool) 
 
     res.count("events_monitored", mon.events)
     res.count("state_samples", mon.samples)
+    res.count("list_and_stats_views_polled", mon.view_samples)
     res.count("state_transitions", mon.transitions)
     res.count("clusters_run")
     res.count("probes_sent", sum(nd.stats.probes_sent for nd in nodes))
@@ -972,7 +1040,8 @@ def _detection_oracle(case, mon: _Monitor, nodes, res: Result, B: int, end_s: fl
         worst = max(worst, det)
         if la is not None and la > mon.bound_ns:
             heard = mon.heard_ns[yi][xi]
-            still = mon.cur[yi][xi] is MS.ALIVE  # at the last sample, i.e. at the 3B horizon
+            still = mon.cur[yi][xi] is MS.ALIVE or mon.listed_alive_now[yi]  # at the last sample, i.e. at the 3B horizon
+            list_only = mon.alive_by_list_only_ns[yi] == la  # the ALIVE report came from alive_members alone
             probes = mon.probes_after_stop[yi]
             if heard is None:
                 shape = "observer-never-received-a-ping-or-ack-from-the-stopped-member"
@@ -982,6 +1051,8 @@ def _detection_oracle(case, mon: _Monitor, nodes, res: Result, B: int, end_s: fl
                     + ("its-direct-probes-after-the-stop-went-unanswered/" if probes else "it-sent-no-direct-probe-after-the-stop/")
                     + (f"still-alive-at-{HORIZON_MULT}B" if still else f"detected-late-between-B-and-{HORIZON_MULT}B")
                 )
+            if list_only:
+                shape += "/reported-by-alive_members-while-get_member_state-had-left-ALIVE"
             res.count("views_still_alive_at_horizon" if still else "views_detected_late_after_bound")
             key = ("detect", shape)
             if key not in mon.flagged:
